@@ -117,9 +117,39 @@ def _needs_paren(arg):
     return False
 
 
-def expand_local_macros(src, macros, log):
-    """R2: expand invocations of the crate-local macro_rules by parameter substitution."""
+def _is_mut_ref_param(fn_src, name):
+    """is `name` declared as a `&mut` parameter in the signature of fn_src?"""
+    toks = tokenize(fn_src)
+    for k, t in enumerate(toks):
+        if t.kind == "ident" and t.text == "fn":
+            o = next_sig(toks, next_sig(toks, k))
+            while toks[o].text != "(":
+                if toks[o].text == "<":
+                    # skip generics
+                    depth = 1
+                    while depth:
+                        o += 1
+                        if toks[o].text == "<":
+                            depth += 1
+                        elif toks[o].text == ">":
+                            depth -= 1
+                o = next_sig(toks, o)
+            c = match_close(toks, o)
+            for (a, b) in split_args(toks, o + 1, c):
+                ptxt = text(toks, a, b).strip()
+                m = re.match(r"^(?:mut\s+)?(\w+)\s*:\s*(.*)$", ptxt, re.S)
+                if m and m.group(1) == name:
+                    return m.group(2).strip().startswith("&mut")
+            return False
+    return False
+
+
+def expand_local_macros(src, macros, log, outline=None):
+    """R2: expand invocations of the crate-local macro_rules by parameter substitution.
+    R2b: macros listed in `outline` become calls to a generated function whose body is the macro
+    body (arguments of `&mut` parameter types are passed by mutable (re)borrow)."""
     names = set(macros)
+    outline = outline or {}
     for _round in range(10):
         toks = tokenize(src)
         calls = _find_macro_calls(toks, names)
@@ -132,6 +162,25 @@ def expand_local_macros(src, macros, log):
             args = [text(toks, a, b).strip() for (a, b) in split_args(toks, o + 1, c)]
             if len(args) != len(md.params):
                 raise ExtractError("macro %s: arity mismatch" % md.name)
+            if md.name in outline:
+                ptypes = outline[md.name]["params"]
+                cargs = []
+                for pn, a in zip(md.params, args):
+                    ty = ptypes[pn]
+                    if ty.startswith("&mut"):
+                        if re.fullmatch(r"\w+", a) and _is_mut_ref_param(src, a):
+                            cargs.append("&mut *" + a)
+                        else:
+                            cargs.append("&mut " + a)
+                    else:
+                        cargs.append(a)
+                n2 = next_sig(toks, c)
+                endk = n2 + 1 if (n2 < len(toks) and toks[n2].text == ";") else c + 1
+                out.append(text(toks, last, k))
+                out.append("verif_macro_%s(%s);" % (md.name, ", ".join(cargs)))
+                last = endk
+                log.append({"rule": "R2b", "macro": md.name})
+                continue
             amap = dict(zip(md.params, args))
             bt = tokenize(md.body)
             res = []
